@@ -86,3 +86,10 @@ META['C08'] = dict(
     note='Trusted: model item construction (ch.7.3) for the three-way comparison; thread interleavings are not controlled, only varied.',
     technique='property-based testing (rapidcheck): differential (compiled/interpreted/light/model) + page-protection and canary invariants',
 )
+
+META['C01'] = dict(
+    text='n-version differential over generated (key, input, version): 23 configurations per version (12 VM classes, two complete datasets from both initialisers over generated multi-thread partitions, six cache '
+         'variants, both hashing APIs) must all reproduce the digest of the light software-AES interpreter. 2 keys / 720 hashes quick, 16 keys thorough; each key costs ~50 s (two 2 GiB datasets).',
+    note='Trusted: nothing but digest equality; a defect shared by every configuration is invisible (C02). LARGE_PAGES not in the quantifier.',
+    technique='differential property-based testing (rapidcheck), n-version equality across configurations',
+)
